@@ -1,6 +1,8 @@
 pub mod addr;
 pub mod merkle;
+pub mod psetraw;
 pub mod script;
 pub mod ser;
 pub mod sha;
 pub mod sighash;
+pub mod tap;
